@@ -380,6 +380,11 @@ pub fn gen_c10(out: &mut Out, rng: &mut Rng, thorough: bool) {
     }
 }
 
+/// the history up to and including op `i` (a failing history replays from its prefix)
+fn prefix_line(l: &str, i: usize) -> String {
+    l.split(" | ").take(i + 2).collect::<Vec<_>>().join(" | ")
+}
+
 pub fn mon_c10(out: &mut Out, l: &str, r: &str) {
     let (head, ops) = ops_of(l);
     if head[0] != "cli" || head[1] != "tcp" {
@@ -407,12 +412,12 @@ pub fn mon_c10(out: &mut Out, l: &str, r: &str) {
                 None => unwrapped = u64::from(tid),
                 Some(prev) => {
                     let d = u64::from(tid.wrapping_sub(prev));
-                    out.check(d >= 1, || format!("transaction id {tid:04X} transmitted in call {i} repeats the previous one"), &super::codec::trunc(l));
+                    out.check(d >= 1, || format!("transaction id {tid:04X} transmitted in call {i} repeats the previous one"), &prefix_line(l, i));
                     unwrapped += d;
                 }
             }
             let ok = unwrapped + 1 <= calls_so_far;
-            out.check(ok, || format!("transaction id {tid:04X} transmitted in call {i}: {} ids used up by {calls_so_far} calls", unwrapped + 1), &super::codec::trunc(l));
+            out.check(ok, || format!("transaction id {tid:04X} transmitted in call {i}: {} ids used up by {calls_so_far} calls", unwrapped + 1), &prefix_line(l, i));
             if !ok {
                 return;
             }
@@ -431,7 +436,7 @@ pub fn mon_c10(out: &mut Out, l: &str, r: &str) {
             let w = written(res.get(i).copied().unwrap_or(""));
             if w.len() >= 2 {
                 let tid = u16::from(w[0]) << 8 | u16::from(w[1]);
-                out.check(u64::from(tid) == idx % 65536, || format!("call number {idx} carries transaction id {tid:04X}"), &super::codec::trunc(l));
+                out.check(u64::from(tid) == idx % 65536, || format!("call number {idx} carries transaction id {tid:04X}"), &prefix_line(l, i));
             }
             idx += 1;
         }
